@@ -97,6 +97,24 @@ def body(e, L, cfg):
         r, m = e.check()
         return {"status": "viol", "why": "RNG call sequence is %s, expected seed(s), %d x shuffle(row), seed(None)"
                 % ([c[0] if c[0] != "seed" else ("seed", "None" if c[1] is None else "s") for c in calls][:8], N), "cex": cex(m)}
+    # history: a second call must not rewrite the table handed out by the first one, and must behave in the same way
+    first = [zint(x) for x in es]
+    ncalls = len(calls)
+    try:
+        t2 = L.create_random_shuffles(k, SymInt(seed), bool(cfg.get("verbose")))
+    except core.Abort:
+        raise
+    except Exception as ex:
+        r, m = e.check()
+        return {"status": "viol", "why": "second call raised %s" % type(ex).__name__, "cex": cex(m)}
+    now = [zint(x) for x in t.elems()]
+    r, m = e.check(z3.Not(z3.And([a == b for a, b in zip(first, now)])))
+    if r == "sat":
+        return {"status": "viol", "why": "the table returned by the first call was rewritten by the second call", "cex": cex(m)}
+    calls2 = rnd.calls[ncalls:]
+    if len(calls2) != N + 2 or calls2[0][0] != "seed" or calls2[-1] != ("seed", None) or t2 is t:
+        r, m = e.check()
+        return {"status": "viol", "why": "second call does not repeat the seed / shuffle / reseed sequence on a table of its own", "cex": cex(m)}
     mm = e._ensure_model()
     return {"status": "ok", "sample": {"k": k, "rows": N, "rng_calls": len(calls), "seed": mm.eval(seed, model_completion=True).as_long()}}
 
@@ -112,6 +130,19 @@ def body_bij(e, L, cfg):
         if kind != "ok":
             return {"status": "skip", "why": str(val)}
         out.append(strs.codes_of(val[0]))
+        if b is bs:
+            # the real decode inverts the digit map (same graph, start, table, mode)
+            try:
+                back = L.decode(val[0], cfg["L"], val[2], SymInt(start), is_faster=fast, shuffles=val[4])
+                bt = z3.And([zint(x) == y for x, y in zip(back.fix_len().elems(), bs)])
+            except core.Abort:
+                raise
+            except Exception as ex:
+                bt = z3.BoolVal(False)
+            r, m = e.check(z3.Not(bt))
+            if r == "sat":
+                c = coding.cex_of(m, g, bs, start, tab, cfg, "roundtrip")
+                return {"status": "viol", "why": "decode does not invert the digit map induced by the table", "cex": c}
     c1, c2 = out
     if not c1 or not c2:
         return {"status": "skip", "why": "empty strand"}
